@@ -6,6 +6,7 @@ package props
 
 import (
 	"bytes"
+	"crypto/sha256"
 	"encoding/binary"
 	"fmt"
 	"sort"
@@ -61,7 +62,7 @@ var c19Passes = []string{"", "pass", "p", "пароль✓ζ", strings.Repeat("l
 func genC19Key(depth int) func(t *rapid.T) c19Key {
 	return func(t *rapid.T) c19Key {
 		k := rapid.IntRange(0, 5).Draw(t, "kind")
-		if depth >= 2 && k >= 4 {
+		if depth >= 3 && k >= 4 {
 			k = 0
 		}
 		switch {
@@ -70,9 +71,17 @@ func genC19Key(depth int) func(t *rapid.T) c19Key {
 		case k <= 3:
 			return c19Key{Kind: "secp", Seed: rapid.IntRange(0, 1000000).Draw(t, "seed")}
 		}
-		n := rapid.IntRange(2, 4).Draw(t, "nkids")
+		// 1-5 component keys (fewer when nested); a component may be listed twice
+		n := rapid.SampledFrom([]int{1, 2, 2, 3, 3, 4, 5}).Draw(t, "nkids")
+		if depth >= 1 && n > 3 {
+			n = 3
+		}
 		key := c19Key{Kind: "multi"}
 		for i := 0; i < n; i++ {
+			if i > 0 && rapid.IntRange(0, 7).Draw(t, "samekid") == 0 {
+				key.Kids = append(key.Kids, key.Kids[0])
+				continue
+			}
 			key.Kids = append(key.Kids, genC19Key(depth+1)(t))
 		}
 		return key
@@ -104,7 +113,8 @@ func genC19(t *rapid.T, tier string) interface{} {
 		n := rapid.SampledFrom([]int{0, 1, 32, 64, 200, 4096}).Draw(t, "msglen")
 		s.Msg = fmt.Sprintf("%x", rapid.SliceOfN(rapid.Byte(), n, n).Draw(t, "msg"))
 		s.Path = rapid.SliceOfN(rapid.IntRange(0, 3), 0, 2).Draw(t, "path")
-		s.Mut = rapid.SampledFrom([]string{"", "", "wrongkey", "othermsg", "flip", "trunc", "ext", "empty", "drop", "swap", "dup", "extra", "foreign", "verifymsg", "verifykey"}).Draw(t, "mut")
+		s.Mut = rapid.SampledFrom([]string{"", "", "wrongkey", "othermsg", "flip", "trunc", "ext", "empty", "drop", "swap", "dup", "extra", "foreign", "verifymsg", "verifykey",
+			"ctrunc", "crandom", "cplain", "cext", "crosskey", "crosskey"}).Draw(t, "mut")
 		return s
 	}), 1, 12).Draw(t, "sigs")
 	return p
@@ -197,12 +207,12 @@ func c19Sign(k c19Key, msg []byte, path []int, mut string, applied *bool) []byte
 			sigs = sigs[:len(sigs)-1]
 			*applied = true
 		case "swap":
-			if !bytes.Equal(c19Pub(k.Kids[0]).Bytes(), c19Pub(k.Kids[1]).Bytes()) {
+			if len(k.Kids) >= 2 && !bytes.Equal(c19Pub(k.Kids[0]).Bytes(), c19Pub(k.Kids[1]).Bytes()) {
 				sigs[0], sigs[1] = sigs[1], sigs[0]
 				*applied = true
 			}
 		case "dup":
-			if !bytes.Equal(c19Pub(k.Kids[0]).Bytes(), c19Pub(k.Kids[1]).Bytes()) {
+			if len(k.Kids) >= 2 && !bytes.Equal(c19Pub(k.Kids[0]).Bytes(), c19Pub(k.Kids[1]).Bytes()) {
 				sigs[1] = sigs[0]
 				*applied = true
 			}
@@ -241,11 +251,55 @@ func execC19(prog interface{}, c *Case) *Violation {
 			vpub = c19Pub(other)
 			applied = true
 		}
+		anyResult := false
+		switch s.Mut {
+		case "ctrunc": // the encoded signature (container and all) loses its last byte
+			if len(sig) > 0 {
+				sig = append([]byte{}, sig[:len(sig)-1]...)
+				applied = true
+			}
+		case "crandom": // bytes that are no signature at all
+			sum := sha256.Sum256(append([]byte("c19"), msg...))
+			sig = append(sum[:], sum[:]...)
+			applied = true
+		case "cplain": // a multisignature key is offered the plain signature of its first leaf (and a leaf key a container)
+			none := false
+			if s.Key.Kind == "multi" {
+				leaf := s.Key
+				for leaf.Kind == "multi" {
+					leaf = leaf.Kids[0]
+				}
+				sig = c19Sign(leaf, msg, []int{0, 0, 0, 0}, "", &none)
+			} else {
+				sig = crypto.MultiSignature{Sigs: [][]byte{sig}}.Marshal()
+			}
+			applied = true
+		case "cext": // trailing garbage after the encoded signature: must not crash; a decoder may ignore it
+			sig = append(append([]byte{}, sig...), 0x00, 0xff)
+			applied, anyResult = true, s.Key.Kind == "multi"
+		case "crosskey": // a genuine signature offered to a key of another shape
+			none := false
+			switch s.Key.Kind {
+			case "ed":
+				vpub = c19Pub(c19Key{Kind: "secp", Seed: s.Key.Seed})
+			case "secp":
+				vpub = c19Pub(c19Key{Kind: "ed", Seed: s.Key.Seed})
+			default:
+				// the container is verified by its first component alone
+				vpub = c19Pub(s.Key.Kids[0])
+				_ = none
+			}
+			applied = true
+		}
 		var got bool
 		res := catch(func() { got = vpub.VerifyBytes(vmsg, sig) })
 		desc := fmt.Sprintf("key %s, message of %d bytes, mutation %q at %v", keyShape(s.Key), len(msg), s.Mut, s.Path)
 		if res.panicked {
 			return violf("C19/verify-panics", "%s: VerifyBytes panicked: %v", desc, res.pv)
+		}
+		if anyResult {
+			c.Eval(fmt.Sprintf("%v", *s), true)
+			continue
 		}
 		want := !applied
 		if got != want {
